@@ -158,6 +158,11 @@ func insertUtcTime(t time.Time) (seconds uint32, fraction uint32) {
 	// running extractUtcTime and then insertUtcTime will produce
 	// different results because of rounding that heppns twice.
 	// 1 is added to avoid truncating the second time.
-	fraction = uint32((((nanos % 1e9) + 1) << 32) / 1e9)
+	f := (((nanos % 1e9) + 1) << 32) / 1e9
+	if f > 0xFFFFFFFF {
+		// 999999999ns would overflow the 32 bit fraction and read back as 0ns
+		f = 0xFFFFFFFF
+	}
+	fraction = uint32(f)
 	return
 }
